@@ -97,8 +97,8 @@ def build(tier='quick', generated_hook=None):
             rc, out = _run('coq_makefile -f _CoqProject %s -o Makefile' % ' '.join(vfiles), COQ, 120)
             log.append(out)
             open(stamp, 'w').write(listing)
-        if tier == 'thorough' and os.environ.get('VERIF_NO_CLEAN') != '1':
-            _run('timeout 300 make clean', COQ, 320)
+        # (the thorough tier's from-scratch build happens in a private copy, see clean_copy_build: the shared tree is
+        # never cleaned, other checks may be using it)
         rc, out = _run('timeout 1500 make -j16', COQ, 1520)
         log.append(out)
         if rc != 0:
@@ -126,13 +126,46 @@ def forbidden_scan():
     return bad
 
 
+def clean_copy_build():
+    """thorough tier: copy the sources of the development into a private directory and build everything from
+    scratch there (full .vo build).  Returns (ok, directory, log); the caller removes the directory."""
+    import shutil
+    dst = os.path.join(VERIF, '.thorough-%d' % os.getpid())
+    shutil.rmtree(dst, ignore_errors=True)
+    lock = open(os.path.join(VERIF, '.build.lock'), 'w')
+    fcntl.flock(lock, fcntl.LOCK_SH)
+    try:
+        vfiles = []
+        for d in ('Model', 'Proofs', 'Props', 'Generated', 'Extract'):
+            dd = os.path.join(COQ, d)
+            os.makedirs(os.path.join(dst, 'coq', d), exist_ok=True)
+            if os.path.isdir(dd):
+                for f in sorted(os.listdir(dd)):
+                    if f.endswith('.v'):
+                        shutil.copy(os.path.join(dd, f), os.path.join(dst, 'coq', d, f))
+                        vfiles.append(os.path.join(d, f))
+        shutil.copy(os.path.join(COQ, '_CoqProject'), os.path.join(dst, 'coq', '_CoqProject'))
+        os.makedirs(os.path.join(dst, 'ocaml'), exist_ok=True)     # Extract.v writes ../ocaml/model.ml
+    finally:
+        fcntl.flock(lock, fcntl.LOCK_UN)
+    cq = os.path.join(dst, 'coq')
+    rc, out = _run('coq_makefile -f _CoqProject %s -o Makefile' % ' '.join(vfiles), cq, 120)
+    rc, out2 = _run('timeout 2400 make -j16', cq, 2420)
+    return rc == 0, dst, (out + out2)[-4000:]
+
+
 def proof_obligations(pid, tier='quick'):
     """Re-check Props/<pid>.v: returns dict(obligations, discharged, names, assumptions, log)."""
     src = os.path.join(COQ, 'Props', pid + '.v')
     txt = open(src).read()
     names = re.findall(r'^\s*(?:Theorem|Lemma|Corollary|Example)\s+(\w+)', txt, flags=re.M)
     prints = re.findall(r'Print Assumptions\s+(\w+)', txt)
-    rc, out = _run('timeout 900 coqc %s Props/%s.v' % (coq_flags(), pid), COQ, 920)
+    lock = open(os.path.join(VERIF, '.build.lock'), 'w')
+    fcntl.flock(lock, fcntl.LOCK_SH)       # no rebuild of the shared tree while this file is compiled
+    try:
+        rc, out = _run('timeout 900 coqc %s Props/%s.v' % (coq_flags(), pid), COQ, 920)
+    finally:
+        fcntl.flock(lock, fcntl.LOCK_UN)
     closed = out.count('Closed under the global context')
     axioms = re.findall(r'^Axioms:\n(.*?)(?=\n\S|\Z)', out, flags=re.S | re.M)
     ok = rc == 0
@@ -143,13 +176,31 @@ def proof_obligations(pid, tier='quick'):
     if not ok or discharged != len(names):
         res['log'] = out[-4000:]
     if tier == 'thorough' and ok and os.environ.get('VERIF_NO_COQCHK') != '1':
-        rc2, out2 = _run('timeout 1500 coqchk -o %s Props.%s' % (coq_flags(), pid), COQ, 1520)
-        res['coqchk_rc'] = rc2
-        res['coqchk_tail'] = out2[-1500:]
-        res['checker_cmd'] += ' && coqchk -o %s Props.%s' % (coq_flags(), pid)
-        if rc2 != 0:
-            res['discharged'] = 0
-            res['log'] = out2[-4000:]
+        # from-scratch build of the whole development in a private copy, Props/<pid>.v re-checked there by coqc
+        # (Print Assumptions) and by the independent checker coqchk
+        import shutil
+        okc, dst, logc = clean_copy_build()
+        try:
+            res['checker_cmd'] = ('(private copy of coq/) coq_makefile && make -j16 && coqc %s Props/%s.v && coqchk -o %s Props.%s'
+                                  % (coq_flags(), pid, coq_flags(), pid))
+            if not okc:
+                res['discharged'] = 0
+                res['log'] = 'clean build of the private copy failed:\n' + logc
+                return res
+            cq = os.path.join(dst, 'coq')
+            rc1, out1 = _run('timeout 900 coqc %s Props/%s.v' % (coq_flags(), pid), cq, 920)
+            if rc1 != 0 or out1.count('Closed under the global context') != len(prints):
+                res['discharged'] = 0
+                res['log'] = 'private copy: ' + out1[-4000:]
+                return res
+            rc2, out2 = _run('timeout 1500 coqchk -o %s Props.%s' % (coq_flags(), pid), cq, 1520)
+            res['coqchk_rc'] = rc2
+            res['coqchk_tail'] = out2[-1500:]
+            if rc2 != 0:
+                res['discharged'] = 0
+                res['log'] = out2[-4000:]
+        finally:
+            shutil.rmtree(dst, ignore_errors=True)
     return res
 
 
